@@ -972,7 +972,7 @@ func suiteRecvData(h *H) {
 		h.emit(fmt.Sprintf("!recvdata-shrunk seed=%d case=%d announced=%d actual=%d", h.seed, i, announced, len(data)), strings.SplitN(outcome, ":", 2)[0], v, true)
 		h.stat("recvdata.shrunk")
 	}
-	n := h.n(120, 2500)
+	n := h.n(120, 1200) // thorough: ~25 000 damaged streams in all; 2 500 x 40 took more than an hour
 	for i := 0; i < n; i++ {
 		seed := int32(h.rng.Uint32())
 		bl := h.pick(1, 2, 3, 7, 16, 50)
@@ -1019,7 +1019,7 @@ func suiteRecvData(h *H) {
 			run(seed, basis, s, target, "sender-stream")
 			// (3) damaged streams (C03): single-bit flips, reference substitution, reordering, truncation,
 			// basis changed after the signature was taken
-			flips := h.n(6, 40)
+			flips := h.n(6, 16)
 			if len(s) <= 64 && h.thorough() {
 				flips = len(s) * 8 // every bit
 			}
